@@ -255,6 +255,29 @@ func c17GenRelPolar(r *Rng) c17Poly {
 	return s
 }
 
+// c17GenPolarAxis: outlines drawn turtle-style with polar vertices whose headings are exact multiples of 90 and 45 degrees,
+// positive and negative, up to several turns (a clockwise rectangle is 0, -90, -180, -270).
+func c17GenPolarAxis(r *Rng) c17Poly {
+	fr := c17NewFrame(r)
+	n := r.IR(3, 9)
+	s := c17Poly{Gen: "polar-axis", Closed: r.Bool()}
+	s.V = append(s.V, c17PV{X: fr.o.X, Y: fr.o.Y})
+	step := pickOne(r, []float64{90, 90, 45, 30})
+	k := r.IR(-8, 8)
+	turn := pickOne(r, []int{1, -1, 1, -1, 2, -3})
+	for i := 1; i < n; i++ {
+		deg := float64(k) * step
+		th := deg * math.Pi / 180 // what sdf.DtoR computes
+		v := c17PV{X: fr.s * r.LogR(0.2, 3), Y: th, Polar: true, Rel: true}
+		if r.P(0.15) {
+			v.Rel = false // an absolute polar vertex: heading and distance from the origin
+		}
+		s.V = append(s.V, v)
+		k += turn
+	}
+	return s
+}
+
 func c17ArcRadius(r *Rng, half float64) float64 {
 	k := r.LogR(1.0005, 1000)
 	switch r.I(5) {
@@ -815,7 +838,7 @@ func checkC17(c *Ctx) {
 		return
 	}
 	// polygons
-	gens := []func(*Rng) c17Poly{c17GenCorner, c17GenCorner, c17GenCorner, c17GenMulti, c17GenMulti, c17GenArc, c17GenArc, c17GenRelPolar, c17GenMixed, c17GenMixed}
+	gens := []func(*Rng) c17Poly{c17GenCorner, c17GenCorner, c17GenCorner, c17GenMulti, c17GenMulti, c17GenArc, c17GenArc, c17GenRelPolar, c17GenMixed, c17GenMixed, c17GenPolarAxis}
 	nPoly := c.Pick(2200, 44000)
 	var sampleMu sync.Mutex
 	sampled := map[string]bool{}
